@@ -63,8 +63,8 @@ void gf_gen_cauchy1_matrix(unsigned char *a, int m, int k)
 int gf_invert_matrix(unsigned char *in, unsigned char *out, const int n)
 {
     init();
-    refisal_invert_calls++;
-    if (refisal_fail_invert_at > 0 && refisal_invert_calls == refisal_fail_invert_at) return -1;
+    long ord = __atomic_add_fetch(&refisal_invert_calls, 1, __ATOMIC_RELAXED);
+    if (refisal_fail_invert_at > 0 && ord == refisal_fail_invert_at) return -1;
     memset(out, 0, (size_t)n * n);
     for (int i = 0; i < n; i++) out[i * n + i] = 1;
     for (int i = 0; i < n; i++) {
@@ -103,7 +103,7 @@ void ec_init_tables(int k, int rows, unsigned char *a, unsigned char *g_tbls)
 
 void ec_encode_data(int len, int k, int rows, unsigned char *g_tbls, unsigned char **data, unsigned char **coding)
 {
-    refisal_encode_calls++;
+    __atomic_fetch_add(&refisal_encode_calls, 1, __ATOMIC_RELAXED);
     for (int l = 0; l < rows; l++)
         for (int i = 0; i < len; i++) {
             unsigned char s = 0;
